@@ -988,7 +988,7 @@ fn claim(sim: &mut Sim, back: usize, user: usize, mode: ClaimMode, cpi_fail: u8,
     if already {
         // A second claim of the same exchange must not pay anything.
         obs.require(
-            paid.iter().all(|p| *p == 0) && post_bank == pre_bank,
+            paid.iter().all(|p| *p == 0),
             P,
             "double_claim",
             || format!("paid={}", paid.iter().any(|p| *p > 0)),
